@@ -18,6 +18,7 @@ def gen_cases(ctx):
 import re
 INT_VALUE = re.compile(r"^([iu](?:8|16|32|64)):(-?[0-9]+|N)$")
 INTLITS = [0]
+STRLITS = [0]
 
 
 def subst(tokens, lit_tokens):
@@ -80,6 +81,20 @@ def batch_oracle(ctx, lines, impl):
             INTLITS[0] += 1
             if unhexs(l) != exp and verdicts[i] is None:
                 verdicts[i] = "the literal of the bound value %s is written %r" % (v, unhexs(l))
+        # the literal of a bound string is ONE string token of the engine's lexer and decodes to the string (read by
+        # the extracted engine lexer, not by the implementation's writer); NUL has no representation on Postgres / SQLite
+        for v, l in zip(vals, lits):
+            if not v.startswith("s:") or v.endswith(":N") or verdicts[i] is not None:
+                continue
+            h = v[2:]
+            if h == "":
+                h = "-"        # (the empty string is written - by both encodings)
+            if b in ("pg", "sl") and "00" in [h[j:j + 2] for j in range(0, len(h), 2)]:
+                continue
+            t = toks.get((b, l))
+            STRLITS[0] += 1
+            if t is None or t == "LEXFAIL" or t.split(" ")[:-1] != ["S" + h]:
+                verdicts[i] = "the literal of the bound string %s reads as %s under the %s lexer" % (v, t, b)
         if verdicts[i] is not None:
             continue
         lt = []
@@ -102,6 +117,7 @@ def batch_oracle(ctx, lines, impl):
     qcommon.text_level_premise(ctx, lines, impl, "I")
     ctx.cov["oracle_statements_compared"] = checked
     ctx.cov["oracle_integer_literals_checked_against_the_numeral"] = INTLITS[0]
+    ctx.cov["oracle_string_literals_decoded_by_the_engine_lexer"] = STRLITS[0]
     return verdicts
 
 
